@@ -5,6 +5,30 @@ ALL = ["C%02d" % i for i in range(1, 21)]
 
 CHECKS = [
     {
+        "property_id": "C01",
+        "text": "Coq: generic strong-eventual-consistency theorem; commutation proved for counters (all orders) and for concurrent array inserts on the RGAList model (skip rule, generic over the ticket order, no list invariant); delivery discipline from C04. Tie: RGAList (insert/move/set/delete/purge), ElementRHT and Counter models are run against the real crdt structures on random call sequences every run. Decision for the unproved clauses (object LWW, moves, text, tree): convergence oracle on random real multi-client histories.",
+        "note": "PARTIAL proof (see Props/C01.v header). Known finding P13 (array set-by-index after a move) is attributed only through its signature.",
+        "technique": "Coq proof (SEC + commutation lemmas) + structure correspondence + convergence oracle on real histories",
+    },
+    {
+        "property_id": "C03",
+        "text": "Coq: purge view-invariance for arrays, purge justified by every vector under the minimum, response vector is the minimum. Tie and decision: structure correspondence incl. purge calls; twin-run oracle (GC pinned off by an idle attached client) on real histories with push-only syncs and in-flight edits.",
+        "note": "PARTIAL proof; the equality content(GC on)=content(GC off) is an oracle, not a theorem.",
+        "technique": "Coq proof (view invariance, min-vector lemmas) + twin-run differential oracle",
+    },
+    {
+        "property_id": "C07",
+        "text": "Coq: counter arithmetic (modular sum, wraparound). Array index arithmetic tied by comparing the model's linear scan with the real treelist on every generated state; editing calls on one Document compared with plain reference types after random remote changes and GC.",
+        "note": "PARTIAL proof: text/tree index arithmetic has no Coq model (reference differential only).",
+        "technique": "Coq proof (counter) + structure correspondence + reference-model differential",
+    },
+    {
+        "property_id": "C08",
+        "text": "Coq: Document.Update state machine over an abstract CRDT layer: failed update is a no-op that drops the clone; clone = root invariant for all update sequences under the agreement hypothesis. The hypothesis and the all-or-nothing fingerprint are validated on the real Document in random histories with failing/panicking updaters, remote packs, GC, undo/redo.",
+        "note": "Hypothesis proxy_agrees is trusted-but-validated (differential), not proved about json/operations code.",
+        "technique": "Coq proof (state machine, Section hypothesis) + differential validation of the hypothesis",
+    },
+    {
         "property_id": "C04",
         "text": "Coq theorems by one inductive invariant over all runs of the protocol model with any number of honest clients (log density, per-actor clientSeq order, exactly-once/no-echo delivery, bounded checkpoints), plus density under arbitrary (hostile) requests. The model is executed on the request/response traffic recorded from the real in-process server for random multi-client histories (attach/detach/re-attach, push-only, in-flight edits, lost responses) and must reproduce every response and the final log; independent oracles judge the implementation's own log and traffic.",
         "note": "Trusted: Coq kernel, harness, actor-rank mapping. Model granularity is one PushPull at a time (the doc.push lock / CAS interleavings are not in this check); memory DB only.",
